@@ -21,7 +21,7 @@ RULE = ("generated: per supported geometry chains of 1..4 modules (half of them 
         "plasmid with the same cutter and the same two overhangs (e.g. YTK promoters, CIDAR promoters). Non-trivial = exchange executed "
         "and both products segmented and compared; distinct = distinct (original inputs, position, replacement).")
 ASSUMPTIONS = ["both assemblies are complete unambiguous chains of well-formed plasmids (exactly two sites each)"]
-FLOORS = {"c19_typed_part_cases": 50, "c19_exchanges": 600, "c19_registry_exchanges": 30, "c19_segments_compared": 1500}
+FLOORS = {"c19_degenerate_signature_replacements": 50, "c19_typed_part_cases": 50, "c19_exchanges": 600, "c19_registry_exchanges": 30, "c19_segments_compared": 1500}
 MUST_REACH = ["AssemblyManager._generate_assembly"]
 NEEDS_REGISTRIES = True
 BUDGET_S = {"quick": 900, "thorough": 7200}
@@ -142,7 +142,26 @@ def execute(mat, ctx):
                 ntext = rot_left(nm["seq"], rng.randrange(len(nm["seq"])))
                 t2 = list(texts)
                 t2[pos] = ntext
-                new = run(V, rec(t2[0], 0), [(c, rec(t, i + 1)) for i, (c, t) in enumerate(zip(classes, t2[1:]))])
+                cls2 = list(classes)
+                how = rng.choice(["same-class", "same-class", "isoschizomer", "degenerate-signature"])
+                if how == "isoschizomer":
+                    # the replacement comes from another kit that spells the same enzyme differently (BbsI / BpiI ...)
+                    iso = gen.isoschizomer_names(amat["enzyme"])
+                    if iso:
+                        cls2[pos - 1] = gen.generic_classes(rng.choice(iso))[1]
+                        ctx.count("c19_isoschizomer_replacements")
+                elif how == "degenerate-signature":
+                    # the replacement is typed by a part class whose signature is written with IUPAC codes that contain the overhangs
+                    from moclo.core.parts import AbstractPart
+                    from ..util import IUPAC
+                    def widen(o):
+                        i = rng.randrange(len(o))
+                        codes = [c for c, members in IUPAC.items() if o[i] in members and len(members) > 1]
+                        return o[:i] + rng.choice(codes) + o[i + 1:]
+                    sig = (widen(fr[2]) if rng.random() < 0.7 else fr[2], widen(fr[3]) if rng.random() < 0.7 else fr[3])
+                    cls2[pos - 1] = type(str("Wide%d_%d_%d" % (mat["i"], pos, rep)), (AbstractPart, M), {"cutter": gen.enzyme(amat["enzyme"]), "signature": sig})
+                    ctx.count("c19_degenerate_signature_replacements")
+                new = run(V, rec(t2[0], 0), [(c, rec(t, i + 1)) for i, (c, t) in enumerate(zip(cls2, t2[1:]))])
                 compare(ctx, base, new, pos, "%s chain of %d, position %d" % (amat["enzyme"], len(texts) - 1, pos),
                         dict(enzyme=amat["enzyme"], texts=texts, replacement=ntext, position=pos))
                 ctx.nontrivial([amat["enzyme"], texts, pos, ntext])
